@@ -804,6 +804,7 @@ def makeringlatticeCIJ(n, k, seed=None):
         dCIJ = np.triu(CIJ1, seq[count]) - np.triu(CIJ1, seq[count] + 1)
         dCIJ2 = np.triu(CIJ1, seq2[count]) - np.triu(CIJ1, seq2[count] + 1)
         dCIJ = dCIJ + dCIJ.T + dCIJ2 + dCIJ2.T
+        dCIJ[dCIJ > 1] = 1  # antipodal band of an even ring is its own wrap-around
         CIJ += dCIJ
         kk = int(np.sum(CIJ))
         count += 1
